@@ -36,7 +36,7 @@ var c05stacks = []c05stack{
 	{"mount0", "", false}, {"mount-cross", "", false}, {"mount1", "m", false}, {"mount1-deep", "m/d", false}, {"mount2", "m/n", false}, {"mount-nested", "m/n", false}, {"mount-nested-inner", "m", false},
 	{"sub-dot(mem)", "", false}, {"sub-dot(mount1)", "m", false}, {"mount-lookalike", "ab/a", false}, {"sub(mem)", "", false}, {"sub(mem)-deep", "d", false}, {"sub(mount1)", "", false}, {"sub(mount-above)", "m", false}, {"sub(sub(mem))", "", false},
 	{"os1", "", false}, {"os1-deep", "d", false}, {"os2", "", false}, {"os3", "", false},
-	{"cache", "", true}, {"cache-deep", "d", true}, {"tar", "", true}, {"tar-deep", "d", true},
+	{"cache", "", true}, {"cache-deep", "d", true}, {"tar", "", true}, {"tar-deep", "d", true}, {"tar-failed", "", true}, {"tar-failed-deep", "d", true},
 }
 
 type c05built struct {
@@ -183,7 +183,7 @@ func c05build(env *core.Env, st c05stack) (*c05built, error) {
 			b.fs = c
 			return err
 		}
-	case "tar", "tar-deep":
+	case "tar", "tar-deep", "tar-failed", "tar-failed-deep":
 		src := mk()
 		b.setupFS = src
 		b.finish = func() error {
@@ -200,6 +200,15 @@ func c05build(env *core.Env, st c05stack) (*c05built, error) {
 				e := snap[p]
 				items = append(items, treeItem{Path: p, Dir: e.Kind == "d", Perm: e.Mode & 0o777, Data: e.Data})
 			}
+			if strings.HasPrefix(st.name, "tar-failed") {
+				// the archive ends with an entry BELOW a regular file (or below a file added for the purpose): unpacking
+				// fails there with a path error, and every later call goes through the FS's after-failure paths
+				// (the blocking file is larger than the 150 KiB small buffer: it is written in the foreground, so it exists for
+				// certain when the entry below it arrives - small files are written by background goroutines)
+				blocker := c05prefix(st.prefix, "zz-file")
+				items = append(items, treeItem{Path: blocker, Perm: 0o644, Data: strings.Repeat("z", 200<<10)})
+				items = append(items, treeItem{Path: blocker + "/below", Perm: 0o644, Data: "never"})
+			}
 			t, err := hptar.NewReaderFS(context.Background(), bytes.NewReader(buildTarVerbatim(items)), hptar.ReaderFSOptions{})
 			if err != nil {
 				return err
@@ -210,6 +219,12 @@ func c05build(env *core.Env, st c05stack) (*c05built, error) {
 				return fmt.Errorf("tar did not finish")
 			}
 			b.fs = t
+			if strings.HasPrefix(st.name, "tar-failed") {
+				if t.UnarchiveErr() == nil {
+					return fmt.Errorf("the archive with an entry below a regular file unpacked without error")
+				}
+				return nil
+			}
 			return t.UnarchiveErr()
 		}
 	default:
@@ -288,7 +303,10 @@ func c05extraBuild() {
 		add("Rename/root->root", nil, fsx.Step{K: "Rename", P: ".", P2: "."})
 		add("Symlink/file->root", file, fsx.Step{K: "Symlink", P: "a", P2: "."})
 		add("Mkdir/root", nil, fsx.Step{K: "Mkdir", P: ".", Perm: 0o755})
-		// (Remove of the non-empty top is left out: rmdir(".") is EINVAL, rmdir of its path ENOTEMPTY - no single expectation)
+		// Remove of the top itself: os.Remove(".") is EINVAL whatever the directory holds (the reference, which removes by
+		// path, cannot show that: the expectation is set by hand in c05run for stacks without a prefix)
+		add("Remove/top-nonempty", dir, fsx.Step{K: "Remove", P: "."})
+		add("Remove/top-empty", nil, fsx.Step{K: "Remove", P: "."})
 		add("OpenClose/root-create-excl", nil, fsx.Step{K: "OpenClose", P: ".", Flag: os.O_RDWR | os.O_CREATE | os.O_EXCL, Perm: 0o644})
 		add("WriteFullFile/root", nil, fsx.Step{K: "WriteFullFile", P: ".", Data: "x", Perm: 0o644})
 		add("ReadFile/root", nil, fsx.Step{K: "ReadFile", P: "."})
@@ -406,6 +424,12 @@ func c05run(env *core.Env, idx int) core.CaseResult {
 			steps = append(steps, fsx.Step{K: "Stat", P: p})
 		}
 		steps = append(steps, fsx.Step{K: "OpenClose", P: below, Flag: os.O_RDONLY}, fsx.Step{K: "ReadDir", P: below}, fsx.Step{K: "ReadFile", P: below2}, fsx.Step{K: "Stat", P: below})
+		if strings.HasPrefix(stack.name, "tar-failed") {
+			// names at and below the entry at which unpacking failed
+			for _, p := range []string{"zz-file/below", "zz-file/below/c", "zz-file", "zz-file/other"} {
+				steps = append(steps, fsx.Step{K: "OpenClose", P: p, Flag: os.O_RDONLY}, fsx.Step{K: "Stat", P: p})
+			}
+		}
 	}
 	for i, raw := range steps {
 		if gen != nil {
@@ -462,7 +486,12 @@ func c05run(env *core.Env, idx int) core.CaseResult {
 			sit = "invalid-name"
 		}
 		var rr fsx.Result
-		if !invalidRide {
+		if st.K == "Remove" && raw.P == "." && !invalidRide {
+			if stack.name != "mem" && stack.name != "mount0" && stack.name != "sub-dot(mem)" {
+				continue // (only where "." is the file system's own root: the top of a Sub view or os root is a directory of its parent)
+			}
+			rr = fsx.Result{Err: "ErrInvalid", Typ: "PathError", EPath: "."}
+		} else if !invalidRide {
 			rr = fsx.Exec(ref, st, &rh, nil)
 		} else {
 			// the reference does not validate names; the expectation is the property's: ErrInvalid naming the name passed in
@@ -480,7 +509,7 @@ func c05run(env *core.Env, idx int) core.CaseResult {
 			break
 		}
 		if sr.OK() {
-			if !rr.OK() {
+			if !rr.OK() && !strings.HasPrefix(stack.name, "tar-failed") {
 				break // success where os fails is C01's concern; the states have diverged
 			}
 			continue
@@ -518,10 +547,10 @@ func c05run(env *core.Env, idx int) core.CaseResult {
 				res.Violate(sigBase+"path:"+c05pathKind(sr.EPath, want), detail(fmt.Sprintf("error names %q, expected %q", sr.EPath, want)), wit)
 			}
 		}
-		if !rr.OK() && c05sentinels[rr.Err] && sr.Err != rr.Err && sr.Err != "ErrNotImplemented" {
+		if !rr.OK() && c05sentinels[rr.Err] && sr.Err != rr.Err && sr.Err != "ErrNotImplemented" && !strings.HasPrefix(stack.name, "tar-failed") { // (after a failed unpack the FS answers with the unpack error: type and path are checked, the class is its own)
 			res.Violate(sigBase+"class="+sr.Err+",want="+rr.Err, detail("error matches a different sentinel than os's"), wit)
 		}
-		if rr.OK() {
+		if rr.OK() && !strings.HasPrefix(stack.name, "tar-failed") {
 			break // failure where os succeeds: states diverged (C01's concern)
 		}
 	}
